@@ -145,7 +145,7 @@ Lemma try_paths_done f u v : forall ps pi fs reqs err um sz pi' fs' reqs' e,
   try_paths f u v ps pi fs reqs err = VRDone um sz pi' fs' reqs' e -> sound v fs'.
 Proof.
   induction ps as [|p r IH]; intros pi fs reqs err um sz pi' fs' reqs' e H; cbn in H; [discriminate|].
-  destruct (try_path f v p (script_of u p) max_tries 0 fs 0 err) as [um0 sz0 fs0 k0 e0|fs0 k0 e0] eqn:Et.
+  destruct (try_path f v p (script_of u p) max_tries 0 fs 0 false) as [um0 sz0 fs0 k0 e0|fs0 k0 e0] eqn:Et.
   - inversion H; subst. eapply try_path_done; exact Et.
   - eapply IH; exact H.
 Qed.
@@ -268,7 +268,7 @@ Lemma try_paths_fails f u v :
 Proof.
   induction ps as [|p r IH]; intros Hf pi fs reqs err; cbn; [eauto|].
   destruct (try_path_fails f v p (script_of u p) (fun n => Hf p n (or_introl eq_refl))
-                           max_tries 0 fs 0 err) as [fs' [k [e Ht]]].
+                           max_tries 0 fs 0 false) as [fs' [k [e Ht]]].
   rewrite Ht. apply IH. intros q n Hq. apply Hf. right; exact Hq.
 Qed.
 
@@ -358,8 +358,8 @@ Lemma try_paths_bounded f u v : forall ps pi fs reqs err,
   end.
 Proof.
   induction ps as [|p r IH]; intros pi fs reqs err Hb; cbn; [exact Hb|].
-  pose proof (try_path_bound f v p (script_of u p) fs err) as Hk.
-  destruct (try_path f v p (script_of u p) max_tries 0 fs 0 err) as [um sz fs' k e|fs' k e].
+  pose proof (try_path_bound f v p (script_of u p) fs false) as Hk.
+  destruct (try_path f v p (script_of u p) max_tries 0 fs 0 false) as [um sz fs' k e|fs' k e].
   - apply reqs_bounded_snoc; assumption.
   - apply IH. apply reqs_bounded_snoc; assumption.
 Qed.
@@ -370,7 +370,7 @@ Lemma try_paths_next_all f u v : forall ps pi fs reqs err fs' reqs' e,
 Proof.
   induction ps as [|p r IH]; intros pi fs reqs err fs' reqs' e H; cbn in H.
   - inversion H; subst. rewrite app_nil_r. reflexivity.
-  - destruct (try_path f v p (script_of u p) max_tries 0 fs 0 err) as [um sz fs0 k e0|fs0 k e0];
+  - destruct (try_path f v p (script_of u p) max_tries 0 fs 0 false) as [um sz fs0 k e0|fs0 k e0];
       [discriminate|].
     rewrite (IH _ _ _ _ _ _ _ H), map_app, <- app_assoc. reflexivity.
 Qed.
@@ -436,9 +436,9 @@ Proof.
 Qed.
 
 Lemma handle_no_break f v p fs b :
-  ignore_errors f = false -> ignore_missing f = false -> handle f v p fs b <> VBreak.
+  ignore_errors f = false -> ignore_missing f = false -> forall d, handle f v p fs b <> VBreak d.
 Proof.
-  intros H1 H2. unfold handle. rewrite H1, H2. destruct b as [| |ann date del ab]; cbn; try discriminate.
+  intros H1 H2 d0. unfold handle. rewrite H1, H2. destruct b as [| |ann date del ab]; cbn; try discriminate.
   destruct (N.ltb 0 (vsize v) && _); [discriminate|].
   destruct (positive_opt ann).
   - destruct (negb (need_update fs p ann date)).
@@ -482,7 +482,7 @@ Lemma try_paths_first_good f u v p ps pi fs reqs err k :
   exists um sz fs' reqs' e, try_paths f u v (vpaths v) pi fs reqs err = VRDone um sz pi fs' reqs' e.
 Proof.
   intros Hp H1 H2 Hk Hg. rewrite Hp. cbn [try_paths].
-  destruct (try_path_absorbs f v p (script_of u p) H1 H2 max_tries 0 k fs 0 err
+  destruct (try_path_absorbs f v p (script_of u p) H1 H2 max_tries 0 k fs 0 false
               (Nat.le_0_l _) Hk Hg) as [um [sz [fs' [j [e Ht]]]]].
   rewrite Ht. eauto 10.
 Qed.
@@ -549,4 +549,56 @@ Proof.
     + destruct (lookup fs p); discriminate.
   - destruct (N.ltb 0 (vsize v) && negb (N.eqb (vsize v) del)); [discriminate|].
     injection H as _ <-. eexists. rewrite lookup_set_all, (in_string_mem _ _ Hq). repeat split.
+Qed.
+
+(* ---------------------------------------------------------------- optional file: a definite 404 (F19) *)
+Lemma handle_break_indefinite f v p fs b :
+  handle f v p fs b = VBreak false -> ignore_errors f = true.
+Proof.
+  unfold handle. destruct b as [| |ann date del ab].
+  - destruct (ignore_errors f || ignore_missing f); discriminate.
+  - destruct (ignore_errors f); [reflexivity|discriminate].
+  - destruct (N.ltb 0 (vsize v) && _).
+    + destruct (ignore_errors f); [reflexivity|discriminate].
+    + destruct (positive_opt ann).
+      * destruct (negb (need_update fs p ann date)).
+        -- destruct (lookup fs p); discriminate.
+        -- destruct ab; [discriminate|]. destruct (N.ltb 0 (vsize v) && _); discriminate.
+      * destruct ab; [discriminate|]. destruct (N.ltb 0 (vsize v) && _); discriminate.
+Qed.
+
+(* for a file marked ignore_missing, a 404 within the budget ends the path with a clean
+   path-local flag, whatever transient errors came first *)
+Lemma try_path_optional_404 f v p s :
+  ignore_missing f = true -> ignore_errors f = false ->
+  forall tries n k fs nreq err,
+    n <= k -> k < n + tries -> rbody (nth_resp s k) = BMissing ->
+    match try_path f v p s tries n fs nreq err with
+    | PDone _ _ _ _ _ => True
+    | PNext _ _ e => e = false
+    end.
+Proof.
+  intros Hm He. induction tries as [|t IH]; intros n k fs nreq err Hle Hlt Hk; [lia|].
+  cbn [try_path]. destruct (Nat.eq_dec n k) as [->|Hne].
+  - rewrite Hk. cbn [handle]. rewrite Hm, orb_true_r. reflexivity.
+  - destruct (handle f v p fs (rbody (nth_resp s n))) as [d|e0 fs0|um0 sz0 fs0] eqn:Eh.
+    + destruct d; [reflexivity|]. apply handle_break_indefinite in Eh. congruence.
+    + apply (IH (S n) k); [lia|lia|exact Hk].
+    + exact I.
+Qed.
+
+(* F19: an optional (ignore_missing) single-URL file whose server answers 404 within the
+   budget is never counted, whatever transient failures preceded the 404 *)
+Lemma optional_absent_not_counted f u fs v p k :
+  variants f = [v] -> vpaths v = [p] ->
+  ignore_missing f = true -> ignore_errors f = false ->
+  k < max_tries -> rbody (nth_resp (script_of u p) k) = BMissing ->
+  counted_failure (FRun (download_file f u fs)) = false.
+Proof.
+  intros Hv Hp Hm He Hk Hb. unfold download_file. rewrite Hv. cbn [try_variants]. rewrite Hp. cbn [try_paths].
+  pose proof (try_path_optional_404 f v p (script_of u p) Hm He max_tries 0 k fs 0 false
+                (Nat.le_0_l _) Hk Hb) as Ht.
+  destruct (try_path f v p (script_of u p) max_tries 0 fs 0 false) as [um sz fs' j e|fs' j e].
+  - cbn. destruct um; reflexivity.
+  - subst e. cbn. rewrite He, Hm. reflexivity.
 Qed.
